@@ -38,6 +38,7 @@ func (d *Doctor) diagnoseCommit(com *objects.Commit) *Issue {
 	var bb []byte
 	var blk [][]string
 	var prevRow = make([]string, len(tbl.Columns))
+	var hasPrevRow bool
 	for i, sum := range tbl.Blocks {
 		if len(sum) == 0 {
 			return &Issue{
@@ -55,7 +56,7 @@ func (d *Doctor) diagnoseCommit(com *objects.Commit) *Issue {
 			}
 		}
 		for j := 0; j < len(blk); j++ {
-			if slice.StringSliceEqual(blk[j], prevRow) {
+			if hasPrevRow && slice.StringSliceEqual(blk[j], prevRow) {
 				return &Issue{
 					Err:        fmt.Sprintf("duplicated rows: %d,%d", j-1, j),
 					Resolution: ReingestResolution,
@@ -63,6 +64,7 @@ func (d *Doctor) diagnoseCommit(com *objects.Commit) *Issue {
 				}
 			}
 			copy(prevRow, blk[j])
+			hasPrevRow = true
 		}
 		rowsCount += len(blk)
 	}
